@@ -31,6 +31,38 @@ CHECKS = {
 }
 NA = {
 }
+ALG_NOTE = ('Trusted: CPython/NumPy index machinery on object arrays, "floats are reals" (rounding/overflow ignored; float constants read as the rationals or square roots of rationals they denote), sympy normalisation, the spec functions. '
+            'numpy branch only: torch branches and anything behind LAPACK are bounded run-time contracts, reported separately and never counted as discharged.')
+CHECKS.update({
+ 'C03': dict(level='proof', ref='DESIGN.md §7 C03',
+   text='Exact polynomial identities on fully symbolic complex states and gate matrices (gate not assumed unitary), every configuration enumerated for n<=3 (4 thorough): state.apply_gate == Embed(U,idx).q for all ordered target tuples of size 1..3; '
+        'apply_control_n_gate == controlled embedding for every disjoint control subset (input not mutated); dm.apply_gate == E rho E^dagger; operator_expectation == Tr(rho Embed(O)); reduce_to_probability == Born marginal; inner_product_psi0_O_psi1; '
+        'Circuit: loop-cut dispatch obligation (one iteration applies exactly (gate.array,index) through the proved function) => ordered product by induction on the gate list; to_unitary returns the matrix of apply_state; '
+        'shift_qubit_index_ for a symbolic integer delta; every recording method appends exactly (Gate, normalised index).',
+   note=ALG_NOTE + ' Induction over the gate list is the listed meta-step. Parametrised gate matrices, custom gates, unitarity of to_unitary and random circuits over the whole vocabulary are bounded (Kronecker-product oracle).',
+   tech=TECH + 'loop-body extraction for the circuit induction; run-time contract evaluation on random circuits as bounded stand-in'),
+ 'C11': dict(level='proof', ref='DESIGN.md §7 C11',
+   text='For every non-empty ascending subset of n<=3 (4 thorough) qubits plus selected 4-6 qubit subsets, every outcome k, and a fully symbolic complex state: prob == Born marginal, sum prob == ||q||^2, the generator draws from the reported distribution, '
+        'post state * sqrt(p_k) == projection, post state normalised, measuring again gives the one-hot distribution on k and the same state, bit string == binary expansion of k; no exception on any configuration. MeasureGate.forward/Circuit.measure delegation obligations.',
+   note=ALG_NOTE + ' Assumed contract of the external RNG: Generator.choice(n,p) returns an index with p>0 (every outcome is enumerated). sqrt of a symbolic radicand is a fresh non-negative symbol with s^2 = radicand.',
+   tech=TECH + 'RNG replaced by its contract (outcome enumeration); numeric runs on structured states as bounded stand-in'),
+ 'C12': dict(level='other', ref='DESIGN.md §7 C12',
+   text='Proved (exact identities, symbolic complex Kraus operators / arbitrary operators and input, dim_in,dim_out in 1..3 (4), 1..3 (4) terms): apply_kraus == apply_choi o kraus_to_choi == apply_super o kraus_to_super == sum K rho K^dagger; Choi is the Gram matrix of the vectorised Kraus operators (=> CP); '
+        'choi<->super conversions mutually inverse and consistent with both applies on non-square dimension pairs; hf_channel_to_choi_op; the affine Bloch map reproduces the output Bloch vector; the three noise channels are trace preserving for a SYMBOLIC rate in [0,1]. '
+        'Bounded: conversions back to Kraus form (eigh), data-processing inequalities, fidelity/entropy ranges, torch branches.',
+   note=ALG_NOTE + ' The inequalities between spectral functions (trace distance, fidelity, relative entropy) cannot be decided by contract-based deduction; they are evaluated at run time on seeded channels/states (bounded).',
+   tech=TECH + 'run-time contract evaluation for the spectral clauses as bounded stand-in'),
+ 'C16': dict(level='proof', ref='DESIGN.md §7 C16',
+   text='d = 2..5 (8 thorough), fully symbolic complex matrices / vectors, batch shapes (), (2,), (2,2): all_gellmann_matrix equals the textbook basis with exact sqrt constants in the documented order, Hermitian, Tr(GiGj)=2 delta (tensor_n=2 for d<=3: 4 delta); '
+        'matrix_to_gellmann_basis(A)_i == Tr(G_i A)/2 and reconstructs A; gellmann_basis_to_matrix(v) == sum v_i G_i; both round trips; Bloch vector of a Hermitian trace-one matrix round-trips, its squared norm equals dm_to_gellmann_norm^2 and get_density_matrix_distance2 equals the squared Bloch distance.',
+   note=ALG_NOTE + ' np.linalg.norm is modelled as sqrt(sum |x|^2). torch variants (scatter path, float32) are bounded.',
+   tech=TECH + 'numpy/torch run-time comparison as bounded stand-in'),
+ 'C17': dict(level='proof', ref='DESIGN.md §7 C17',
+   text='utils.partial_trace == explicit double-loop contraction for every keep-subset (including empty and full) of every dimension list of length 2..3 (4 thorough) with entries 2..3 and total dimension <= 18 (36) on a fully symbolic operator; trace preserved; tracing in steps == one step. '
+        'Dicke basis == normalised sums of distinct permutations (exact), orthonormal, invariant under every adjacent transposition, klist = all compositions, count = binomial; partial_trace_ABk_to_AB == embed with the Dicke basis and trace k-1 copies for symbolic psi, (dimA,dimB,k) with dimA*dimB^k <= 64.',
+   note=ALG_NOTE,
+   tech=TECH + 'larger sizes and the torch branch as bounded run-time contracts'),
+})
 PENDING = 'contracts for this property are not built yet in this revision (work in progress, see DESIGN.md §7/§10)'
 ALL = [f'C{i:02d}' for i in range(1, 21)]
 
